@@ -2019,9 +2019,10 @@ class Assign(Elemwise):
 
     def _remove_common_columns(self, other):
         if set(self.keys) & set(other.keys):
-            keys = set(self.keys)
-            operands = [[k, v] for k, v in zip(other.keys, other.vals) if k not in keys]
-            return [other.frame] + list(flatten(operands)) + self.operands[1:]
+            # A column that is assigned again keeps its position
+            pairs = dict(zip(other.keys, other.vals))
+            pairs.update(zip(self.keys, self.vals))
+            return [other.frame] + list(flatten(map(list, pairs.items())))
         else:
             return other.operands + self.operands[1:]
 
